@@ -119,9 +119,21 @@ pub struct Cx<'r> {
     /// the case in progress, written line by line BEFORE each line runs, so that the supervising parent
     /// process can name the failing input if the real code takes the process down (SIGSEGV / abort)
     pub journal: Option<std::fs::File>,
+    /// every oracle failure is also appended here as one JSON line the moment it is recorded, so that
+    /// failures found before a crash of the worker survive it
+    pub fail_log: Option<std::fs::File>,
 }
 
 impl Cx<'_> {
+    /// record an oracle failure on the current case (Recorder + crash-safe log)
+    pub fn fail(&mut self, class: &str, detail: &str) {
+        use std::io::Write;
+        self.rec.fail(class, detail);
+        if let Some(f) = &mut self.fail_log {
+            let j = serde_json::json!({"class": class, "detail": detail, "replay": self.rec.current_case_text()});
+            let _ = f.write_all(format!("{j}\n").as_bytes());
+        }
+    }
     pub fn journal_case(&mut self, header: &str) {
         use std::io::{Seek, Write};
         if let Some(f) = &mut self.journal {
@@ -327,7 +339,7 @@ impl Oracle<'_, '_> {
         if self.muted {
             return;
         }
-        self.cx.rec.fail(class, &detail);
+        self.cx.fail(class, &detail);
         self.muted = true;
         self.failed = true;
         // the state is wrong from here on: running more ops on it could take the process down
@@ -341,7 +353,7 @@ impl Oracle<'_, '_> {
             return;
         }
         if self.cx.prop == Prop::C06 {
-            self.cx.rec.fail(class, &detail);
+            self.cx.fail(class, &detail);
         } else {
             self.cx.rec.bump(&format!("note:c06_class:{class}"));
         }
